@@ -19,7 +19,7 @@ func init() {
 		Explanation: "Decides where and how often actions run and the shape of the counter updates, not the arithmetic results: R1 Action.Evaluate is invoked from a frozen set of call sites, each under no condition other than its documented type filter (non-disruptive actions per matched value; flow and disruptive actions once, by the chain starter only, after the chain walk); " +
 			"R2 on every path through the 'operator matched' branch of doEvaluate the per-match hook (Rule.matchVariable) runs exactly once, never on the no-match path, and MATCHED_* are set before the actions of that match; HIGHEST_SEVERITY is written only by MatchRule (i.e. for rules that fired) and only when the rule's severity is lower than the current value; " +
 			"R2 also: MATCHED_VARS is emptied before every rule under no condition other than being non-empty, and MATCHED_VARS/MATCHED_VARS_NAMES are only extended (Add) or reset, never overwritten per name; R3 the RULE collection and the capture flag are set before any operator or action of the rule runs, and TX.0-9 are written by CaptureField only under the rule's capture flag; R4 the logging actions write exactly the documented (Log, Audit) flags; " +
-			"R6 code running during a transaction reads the transaction's copy of every setting that WAF and Transaction both hold (AuditLogParts, body access and limits, engine modes), never the configured WAF value, except as the upper bound of a ctl limit; R5 setvar's '+'/'-' branches add / subtract the number parsed from the text after the sign to / from the number parsed from the current value, and macros are expanded inside Evaluate (at match time), not at Init.",
+			"R6 code running during a transaction reads the transaction's copy of every setting that WAF and Transaction both hold (AuditLogParts, body access and limits, engine modes), never the configured WAF value, except as the upper bound of a ctl limit; R5 setvar's '+'/'-' branches add / subtract the number parsed from the text after the sign to / from the number parsed from the current value, and macros are expanded inside Evaluate (at match time), not at Init. R3 also: the collection write of CaptureField is reachable for every index 0..9.",
 		NotDecided: []string{
 			"the arithmetic itself (strconv, integer overflow) and macro expansion results",
 			"totals at the end of a phase (follow from once-per-match plus the arithmetic)",
@@ -368,6 +368,18 @@ func runC09(c *an.Ctx) {
 			nW++
 			if !an.FactsAt(in).HasSuffix(".Capture", "==", "true") {
 				guardedInside = false
+			}
+			// ... and for every slot 0..9: no guard on the index parameter may exclude one of them
+			if len(cf.Params) >= 2 {
+				lo, hi, ne := an.FactsAt(in).Range(cf.Params[1].Name())
+				excl := ""
+				for _, x := range ne {
+					if x >= 0 && x <= 9 {
+						excl = fmt.Sprintf(" (and %d is excluded)", x)
+					}
+				}
+				c.Check(lo <= 0 && hi >= 9 && excl == "", "R3", "CaptureField stores every slot TX.0 to TX.9", in.Pos(), "no guard narrows the index below 0..9",
+					fmt.Sprintf("the collection write in CaptureField is only reached for index %d..%d%s: operators that capture ten texts (the match and nine groups, ten @pm hits) silently lose the rest", lo, hi, excl))
 			}
 		})
 		if nW == 0 {
